@@ -81,11 +81,29 @@ var c09Baseline int
 var c09LeakSeen bool
 
 // c09CheckInput returns "" or (class, description).
+// c09Prev: the query returned by the previous successful call and what it read then: a later call must not change it
+// (pooled parsers / shared buffers).
+var c09Prev struct {
+	q    *updogv1.Query
+	text string
+	in   string
+}
+
 func c09CheckInput(s string) (class, viol string) {
 	if c09Baseline == 0 {
 		c09Baseline = runtime.NumGoroutine()
 	}
 	o, hung := parseGuarded(s)
+	if c09Prev.q != nil {
+		if now := protoQueryString(c09Prev.q); now != c09Prev.text {
+			was, in := c09Prev.text, c09Prev.in
+			c09Prev.q = nil
+			return "earlier-result-changed", fmt.Sprintf("the query returned earlier for %q read %s; after this call it reads %s", in, was, now)
+		}
+	}
+	if o.q != nil && o.err == nil && o.panicv == nil {
+		c09Prev.q, c09Prev.text, c09Prev.in = o.q, protoQueryString(o.q), s
+	}
 	if hung {
 		return "hang", "ParseQuery does not return (parser blocked waiting for a token that never comes)"
 	}
@@ -211,6 +229,13 @@ func c09Families() []string {
 			out = append(out, b+" "+x, x+" "+b)
 		}
 		out = append(out, b+` "unterminated`, b+` "`, b+` ""`, b+" ;", b+" é", b+" !", b+" \xff", b+` "c`)
+	}
+	// runes whose low byte (or low 7 bits) is an operator character: none of them is that operator
+	for _, c := range "()&|^,;=\"$" {
+		for _, off := range []rune{0x80, 0x100, 0x4E00, 0xFF00, 0x10000} {
+			r := string(off + c)
+			out = append(out, `a `+r+` "1"`, `a = "1" `+r+` b = "2"`, r+` a = "1" `+r, `a = "1" `+r+` b`, `a = `+r+`1`+r)
+		}
 	}
 	// strings whose last quote is part of an escaped pair: they are unterminated
 	for _, v := range []string{`"abc""`, `"""`, `""x""`, `"a""b""`, `"""""`, `" ""`} {
